@@ -101,6 +101,23 @@ __attribute__((noinline)) void h_x4_shapes(void) {
     __verif_check(r == q.rho * std::pow(base, 2. / (g - 1.))); __verif_check(p == q.P * std::pow(base, 2. * g / (g - 1.)));
     __verif_check(u == 2. / (g + 1.) * (-q.a + 0.5 * (g - 1.) * q.u + dxdt));
   }
+  if (!head) { __verif_check(r == q.rho && u == q.u && p == q.P); }                  // ahead of the fan: undisturbed state
+}
+// X1: regime partition - the wave type is decided by P* against the side pressure alone (shock iff P* > P), and the dispatcher
+// returns exactly what the selected wave routine returns
+__attribute__((noinline)) void h_x1_dispatch(void) {
+  double g = gam(); ExactRiemannSolver s(g); St q = state();
+  double ustar = nondet_double(), Pstar = nondet_double(), dxdt = nondet_double();
+  __CPROVER_assume(pos(Pstar) & dom(ustar) & dom(dxdt));
+  double r, u, p, r2, u2, p2;
+  s.sample_right_state(q.rho, q.u, q.P, q.a, q.Pinv, ustar, Pstar, r, u, p, dxdt);
+  if (Pstar > q.P) s.sample_right_shock_wave(q.rho, q.u, q.P, q.a, q.Pinv, ustar, Pstar, r2, u2, p2, dxdt);
+  else s.sample_right_rarefaction_wave(q.rho, q.u, q.P, q.a, q.Pinv, ustar, Pstar, r2, u2, p2, dxdt);
+  __verif_check(r == r2 && u == u2 && p == p2);
+  s.sample_left_state(q.rho, q.u, q.P, q.a, q.Pinv, ustar, Pstar, r, u, p, dxdt);
+  if (Pstar > q.P) s.sample_left_shock_wave(q.rho, q.u, q.P, q.a, q.Pinv, ustar, Pstar, r2, u2, p2, dxdt);
+  else s.sample_left_rarefaction_wave(q.rho, q.u, q.P, q.a, q.Pinv, ustar, Pstar, r2, u2, p2, dxdt);
+  __verif_check(r == r2 && u == u2 && p == p2);
 }
 // C05-S3/S4: on the vacuum branches the HLLC solver samples the same state as the exact solver at x/t = 0; sampled rho,P >= 0
 __attribute__((noinline)) void h_s3_hllc_eq_exact_vacuum(void) {
